@@ -1729,6 +1729,10 @@ class SequenceOfAndSetOfBase(base.ConstructedAsn1Type):
             # schema object (e.g. an unset member of a record): nothing to copy
             return
 
+        if not self._componentValues:
+            # empty collection is a value, not a schema
+            myClone.clear()
+
         for idx, componentValue in self._componentValues.items():
             if componentValue is not noValue:
                 if isinstance(componentValue, base.ConstructedAsn1Type):
